@@ -97,8 +97,9 @@ def _drop_dead_helpers(prog, inv):
                     elif isinstance(n, ast.Attribute):
                         names_used.add(n.attr)
     dropped = []
+    keep = {new for new, _old in getattr(prog, "relocated", [])}
     for q, f in list(prog.functions.items()):
-        if q in inv or f.parent is not None:
+        if q in inv or q in keep or f.qual in keep or f.parent is not None:
             continue
         if f.name in names_used or (f.name.startswith("__") and f.name.endswith("__")):
             continue
